@@ -446,7 +446,7 @@ pub fn def() -> CheckDef {
             // ForwardedAck preserving origin, target and number, requests naming the instance itself rejected)
             // are also monitored on every call of the shared history, chaos-pool and exhaustive batches
             Batch { scenario: &crate::checks::histchecks::H12, quick: 40_000, thorough: 3_000_000 },
-            Batch { scenario: crate::checks::histchecks::chaos_for("C12"), quick: 2_000, thorough: 150_000 },
+            Batch { scenario: crate::checks::histchecks::chaos_for("C12"), quick: 6_000, thorough: 150_000 },
             Batch { scenario: crate::checks::histchecks::exhaustive_for("C12"), quick: 0, thorough: 0 },
         ],
         extra: None,
